@@ -446,10 +446,22 @@ def run_canaries(pc, prop, plan, tier, jobs):
     for (name, _), r in zip(tasks, res):
         by.setdefault(name, []).append(r)
     for name, rs in by.items():
-        killed = any(o["result"] == "failed" for r in rs for o in r["obligations"])
+        obs = [o for r in rs for o in r["obligations"]]
+        killed = any(o["result"] == "failed" for o in obs)
         err = [r["error"] for r in rs if r["error"]]
-        report.append({"canary": name, "result": "killed" if killed else ("error" if err else "SURVIVED")})
-        if not killed:
+        # the dangerous outcome is a deliberately broken body whose obligations are all *discharged* (an unsound
+        # engine): that is fatal.  A rewrite that only comes out undecided / unsupported (e.g. a solver time-out on
+        # a loaded machine) proves nothing either way and is reported as inconclusive, not as a checker error.
+        if killed:
+            res = "killed"
+        elif err:
+            res = "error"
+        elif obs and all(o["result"] == "discharged" for o in obs):
+            res = "SURVIVED"
+        else:
+            res = "inconclusive (%s)" % ", ".join(sorted(set(o["result"] for o in obs if o["result"] != "discharged")))
+        report.append({"canary": name, "result": res})
+        if res in ("SURVIVED", "error"):
             failed.append(name + (" (error: %s)" % err[0][-300:] if err else ""))
     return report, failed
 
